@@ -11,6 +11,8 @@ CONSTANTS
   BaseCases = TRUE
   NsSet = {}
   NsWide = FALSE
+  ChecksFirstAttribute = FALSE
+  AttrForms = {}
 INIT Init
 NEXT Next
 INVARIANTS
